@@ -926,6 +926,15 @@ def build_tables() -> dict:
         sim_fields=sim_fields,
         schema=schema_noise(),
     )
+    # example records (probe objects), so that the non-vacuity examples of Properties/C17.lean follow the
+    # live field lists
+    ryd = probe_channels(Rydberg, True)[0]
+    dmm_ = probe_channels(DMM, True)[0]
+    out["examples"] = dict(
+        exRydberg=channel_value(ryd, "ryd"), exDmm=channel_value(dmm_, "dmm_0"),
+        exVirtualDevice=device_value(dataclasses.replace(probe_devices(True)[1], short_description="")),
+        exDevice=device_value(dataclasses.replace(probe_devices(False)[1], short_description="")),
+    )
     self_test(out)
     return out
 
@@ -1036,6 +1045,9 @@ def render(tabs: dict) -> str:
              f"def simFields : List (String × Value) := {sf}\n\n")
     s.append(f"def noiseSchemaProps : List String := {lean_strs(n['schema'][0])}\n")
     s.append(f"def noiseSchemaRequired : List String := {lean_strs(n['schema'][1])}\n\n")
+    s.append("/-! Example records (the translator's probe objects) for the non-vacuity examples. -/\n")
+    for name, v in tabs["examples"].items():
+        s.append(f"def {name} : Value := {lean_value(v)}\n\n")
     s.append("end Generated\nend Codec\nend Pulser\n")
     return "".join(s)
 
